@@ -20,7 +20,7 @@ import (
 var sizedLensQuick = []int{0, 1, 2, 3, 4, 5, 6, 7, 8, 9, 10, 11, 12, 13, 14, 15, 16, 17, 18, 19, 20, 21, 24, 25, 31, 32, 33, 63, 64, 65, 127, 128, 129, 192, 256, 1000}
 var sizedLensThorough = []int{255, 257, 511, 512, 513, 1024, 4095, 4096, 4097, 10000}
 
-const sizedPatterns = 25
+const sizedPatterns = 27
 const sizedForms = 16
 
 var sizedFnNames []string
@@ -134,6 +134,10 @@ func sizedArray(n, pattern int) []interface{} {
 			if i >= (n+1)/2 {
 				a[i] = map[string]interface{}{"k": str, "v": float64(i)}
 			}
+		case 25: // objects whose keys are strings throughout (unsorted, some repeated: ties keep their input order)
+			a[i] = map[string]interface{}{"k": "s" + strconv.Itoa((i*104729+1)%(n/2+1)), "v": float64(i)}
+		case 26: // string keys that are prefixes of each other, the empty string, multi-byte characters
+			a[i] = map[string]interface{}{"k": []string{"a", "ab", "abc", "", "ab", "é", "e\u0301", "abcd", "b", "a"}[(i*7)%10], "v": float64(i)}
 		default: // descending keys with ties at the end
 			k := float64(n - i)
 			if i >= n-3 {
